@@ -557,6 +557,10 @@ func renameInLines(a *GACL, old, new string) {
 // Device derives the device side from target t.
 func (g *Gen) Device(t *GConf, nedits int, unmanaged bool) (*GConf, []string) {
 	d := t.clone()
+	if d.VPN != nil && d.VPN.LDAPHosts < 0 {
+		// Device form of the LDAP server group: one to three hosts.
+		d.VPN.LDAPHosts = 1 + (len(d.VPN.Entries)+len(d.VPN.Tunnels)+len(d.VPN.Users))%3
+	}
 	var ops []string
 	drc := 0
 	for k := 0; k < nedits; k++ {
